@@ -210,7 +210,7 @@ pub(crate) mod kani_verif {
             ArrayVec::from_array_len(self.check(), 32)
         }
     }
-    // @h name=c08_ots_private_n32_w1_idx props=C08,C09,C01 tier=quick kind=bounded cfg=default timeout=1200 funcs=lm_ots::keygen::generate_private_key note="one concrete (I, q, seed); all 265 chain indices" contract="n=32, w=1 (p=265, the only set with more than 256 chains): hash call k absorbs exactly I || q || u16(k) || 0xff || seed for k = 0..264 and x_k is the k-th output; checking hash (layout checked at every finalisation)"
+    // @h name=c08_ots_private_n32_w1_idx props=C08,C09,C01 tier=extended kind=bounded cfg=default timeout=1200 funcs=lm_ots::keygen::generate_private_key note="one concrete (I, q, seed); all 265 chain indices" contract="n=32, w=1 (p=265, the only set with more than 256 chains): hash call k absorbs exactly I || q || u16(k) || 0xff || seed for k = 0..264 and x_k is the k-th output; checking hash (layout checked at every finalisation)"
     #[kani::proof]
     #[kani::stub(zeroize::optimization_barrier, no_barrier)]
     #[kani::stub(<[u8; 32] as tinyvec::Array>::default, fast_default)]
